@@ -5,6 +5,7 @@ import (
 	"fmt"
 	"os"
 	"reflect"
+	"regexp"
 	"runtime"
 	"sort"
 	"strconv"
@@ -37,6 +38,7 @@ type H13Op struct {
 	GCBefore   bool   `json:"gc_before,omitempty"` // injected fault: a full collection right before this operation
 	Reenter    bool   `json:"reenter,omitempty"`   // injected interference: while inside tr(), the SAME Callable is invoked again on other contents
 	N          int    `json:"n,omitempty"`         // interfere: number of unrelated compilations
+	Prog2      *Prog  `json:"prog2,omitempty"`     // compose: the second component
 }
 
 type Hist13 struct {
@@ -116,6 +118,29 @@ var c13Extra = []Prog{
 	{"len([1: 1, 1: 2, 2: 3]) + get([1: 1, 1: 2], 1, 0)", "none", false, false},
 	{"[m == m, mi == mi, mo == mo, [m, m] == [m, m]]", "map", false, false},
 	{"[isset(mo, \"u\"), isset(mo, \"zz\"), get(mo, \"v\", o).id]", "struct", false, false},
+	// one list value feeding two set operations: neither result may see the other's elements
+	// (o.tags, ll, lo have no duplicates and lengths that are not powers of two in some environments)
+	{"[union(o.tags, [\"q1\"]), union(o.tags, [\"q2\"])]", "map", false, false},
+	{"[union(o.tags, [\"q1\", \"q2\"]), o.tags, union(o.tags, [\"q3\"])]", "struct", false, false},
+	{"[union(ll, [[9]]), union(ll, [[8]])]", "map", false, false},
+	{"union(o.tags, [s])", "map", false, false},
+	{"union(o.tags, [s + s])", "struct", false, false},
+	{"{a: union(lo, [lo[0]]), b: union(lo, lo), c: diff(o.tags, [\"y\"]), d: intersect(o.tags, o.tags)}", "map", false, false},
+	// order of evaluation is the order of the source text: argument lists, literals, operands
+	{"tr(1) + tr(2) * tr(3) - tr(4)", "none", true, false},
+	{"{a: tr(1), b: tr(2), c: tr(3), d: tr(4)}", "none", true, false},
+	{"{z: tr(\"z\"), a: tr(\"a\"), m: tr(\"m\")}", "none", true, false},
+	{"[tr(\"k1\"): tr(1), tr(\"k2\"): tr(2), tr(\"k0\"): tr(3)]", "none", true, false},
+	{"[tr(3), tr(1), tr(2), tr(1)]", "none", true, false},
+	{"first([tr(3), tr(1), tr(2)], tr(9))", "none", true, false},
+	{"inc(tr(1)) == inc(tr(1)) && tr(true) || tr(false)", "none", true, false},
+	{"when(tr(b), tr(n), tr(x))", "map", true, false},
+	{"print(1) + print(2) * print(3)", "none", false, false},
+	{"[print(\"a\"), print(\"b\"), print(\"c\")]", "none", false, false},
+	{"{z: print(1), a: print(2), m: print(3)}", "none", false, false},
+	{"[print(\"k2\"): print(1), print(\"k1\"): print(2)]", "none", false, false},
+	{"union([tr(1), tr(2)], [tr(2), tr(3)])", "none", true, false},
+	{"get([tr(\"a\"): tr(1)], tr(\"a\"), tr(0)) + len([tr(5), tr(6)])", "none", true, false},
 	// number-text law programs (see numLaw): near-equal but distinct numbers, alone and as map keys
 	{"{numlaw_n: 0.1 + 0.2, numlaw_s: string(0.1 + 0.2)}", "none", false, false},
 	{"{numlaw_n: 0.3, numlaw_s: string(0.3)}", "none", false, false},
@@ -156,6 +181,50 @@ func pickProg13(r *rng, user bool) Prog {
 }
 
 // relative time forms are excluded: for them the property is false by construction.
+var (
+	reStrLit = regexp.MustCompile(`"[^"\\]*"`)
+	reNumLit = regexp.MustCompile(`\b[0-9]+\b`)
+)
+
+// siblingSrc changes one literal of src (same variables, same shape, another constant).
+func siblingSrc(src string, r *rng) (string, bool) {
+	var locs [][]int
+	strs := reStrLit.FindAllStringIndex(src, -1)
+	locs = append(locs, strs...)
+	inStr := func(i int) bool {
+		for _, l := range strs {
+			if i >= l[0] && i < l[1] {
+				return true
+			}
+		}
+		return false
+	}
+	if strings.Contains(src, "'") || strings.Contains(src, "`") {
+		return "", false // time / raw-string literals: leave alone
+	}
+	for _, l := range reNumLit.FindAllStringIndex(src, -1) {
+		if !inStr(l[0]) && (l[0] == 0 || src[l[0]-1] != '.') && (l[1] == len(src) || src[l[1]] != '.') {
+			locs = append(locs, l)
+		}
+	}
+	if len(locs) == 0 {
+		return "", false
+	}
+	l := locs[r.intn(len(locs))]
+	lit := src[l[0]:l[1]]
+	var repl string
+	if lit[0] == '"' {
+		repl = lit[:len(lit)-1] + "2\""
+	} else {
+		n, err := strconv.Atoi(lit)
+		if err != nil {
+			return "", false
+		}
+		repl = strconv.Itoa(n + 1)
+	}
+	return src[:l[0]] + repl + src[l[1]:], true
+}
+
 func clockFree(src string) bool {
 	for _, w := range []string{"now", "today", "tomorrow", "yesterday", "next", "last", "ago", "midnight", "noon"} {
 		if strings.Contains(src, w) {
@@ -347,6 +416,7 @@ func (h *Hist13) keys() []pkey {
 type hist13Result struct {
 	RawEdits  int
 	RawRetypes int
+	Composed   int
 	Reentries int
 	GCBefore  int
 	Viol     *Violation
@@ -375,6 +445,7 @@ func runHist13(h *Hist13, x *evalCtx) hist13Result {
 
 	got := make([]obs, len(h.Ops))
 	hostChanged := make([]string, len(h.Ops))
+	var composeViol *Violation
 	body := func() {
 		engines := make([]*yae.Expr, len(h.Engines))
 		for i, spec := range h.Engines {
@@ -623,16 +694,21 @@ func runHist13(h *Hist13, x *evalCtx) hist13Result {
 				env0 := op.Prog.Env
 				cspec := h.Engines[op.Eng]
 				for j := 0; j < op.N; j++ {
+					cerr := false
 					r := x.observe(false, func(o *obs) {
 						c, err := engines[op.Eng].Compile(op.Prog.Src, envMakers[env0]())
 						if err != nil {
-							o.Class = "cerr"
+							cerr = true
 							return
 						}
 						v, dbg, err := callWith(cspec, c, envMakers[env0]())
 						valObs(o, v, err)
 						o.Debug = dbg
 					})
+					if cerr {
+						// ill-typed under this typing: like the pristine table, nothing to invoke
+						r = obs{Class: "skip"}
+					}
 					if j == 0 {
 						got[i] = r
 					} else if diffObs(got[i], r, false) != "" {
@@ -651,6 +727,35 @@ func runHist13(h *Hist13, x *evalCtx) hist13Result {
 						}
 					}
 				})
+			case "compose":
+				// compositionality: the fields of {a: P1, b: P2} are the values of P1 and of P2.
+				// All three are evaluated here and now on fresh engines with fresh inputs, so
+				// the law is independent of the pristine table (and sees components that
+				// disturb each other inside ONE evaluation, where history and pristine agree)
+				spec := h.Engines[op.Eng]
+				one := func(src string) obs {
+					return x.observe(false, func(o *obs) {
+						c, err := buildEngine(spec, x.recFn).Compile(src, envMakers[op.Prog.Env]())
+						if err != nil {
+							o.Class = "cerr"
+							return
+						}
+						v, _, err := callWith(spec, c, envMakers[op.Prog.Env]())
+						valObs(o, v, err)
+						o.held = nil
+					})
+				}
+				a, b := one(op.Prog.Src), one(op.Prog2.Src)
+				if a.Class == "ok" && b.Class == "ok" {
+					res.Composed++
+					c := one("{a: (" + op.Prog.Src + "), b: (" + op.Prog2.Src + ")}")
+					want := "{a:" + a.Value + ",b:" + b.Value + "}"
+					if (c.Class != "ok" || c.Value != want) && composeViol == nil {
+						composeViol = &Violation{"law", "c13:compose-law:" + c.Class,
+							fmt.Sprintf("op %d (engine=%+v, env=%s): the object literal {a: P1, b: P2} does not hold the values of its components\n P1 = %s\n P2 = %s\n P1 alone: %s\n P2 alone: %s\n composed: class=%s %s",
+								i, spec, op.Prog.Env, op.Prog.Src, op.Prog2.Src, clip(a.Value), clip(b.Value), c.Class, clip(c.Value))}
+					}
+				}
 			case "interfere":
 				r := newRng(uint64(i), uint64(op.N), h.Sim.Seed)
 				for j := 0; j < op.N; j++ {
@@ -675,6 +780,10 @@ func runHist13(h *Hist13, x *evalCtx) hist13Result {
 		}
 	}
 	res.Sim = simrt.Run(h.Sim, body)
+	if composeViol != nil {
+		res.Viol = composeViol
+		return res
+	}
 	// a value handed back to the caller is the caller's: later operations must not change it
 	for i := range got {
 		if got[i].held != nil && res.Viol == nil {
@@ -782,7 +891,7 @@ func genHist13(r *rng) *Hist13 {
 					e = prev.Eng // ... on the same engine ...
 				}
 				if p.Generic && r.chance(0.7) {
-					p.Env = genericEnvs[r.intn(4)] // ... under another typing of its names
+					p.Env = genericEnvs[r.intn(len(genericEnvs))] // ... under another typing of its names
 				}
 				if p.User && !h.Engines[e].UserFuns {
 					p = pickProg13(r, false)
@@ -819,6 +928,31 @@ func genHist13(r *rng) *Hist13 {
 			h.Ops = append(h.Ops, H13Op{K: "interfere", N: 1 + r.intn(4)})
 		}
 	}
+	if r.chance(0.5) {
+		// compose: a program and a sibling of it (one literal changed, same variables), or
+		// another program over the same environment, as the two fields of an object literal
+		e := r.intn(ne)
+		for tries := 0; tries < 10; tries++ {
+			p1 := pickProg13(r, h.Engines[e].UserFuns)
+			if !clockFree(p1.Src) || strings.Contains(p1.Src, "\n") || strings.Contains(p1.Src, "print") {
+				continue
+			}
+			p2 := p1
+			if sib, ok := siblingSrc(p1.Src, r); ok && r.chance(0.7) {
+				p2.Src = sib
+			} else {
+				q := pickProg13(r, h.Engines[e].UserFuns)
+				if q.Env != p1.Env && q.Env != "none" || !clockFree(q.Src) || strings.Contains(q.Src, "\n") || strings.Contains(q.Src, "print") {
+					continue
+				}
+				p2.Src = q.Src
+			}
+			h.Ops = append(h.Ops, H13Op{K: "compose", Eng: e, Prog: &p1, Prog2: &p2})
+			if r.chance(0.5) {
+				break
+			}
+		}
+	}
 	if r.chance(0.4) {
 		// churn: the same generic source compiled again and again on ONE engine under
 		// alternating typings, a collection between the rounds (stale caches keyed by
@@ -828,8 +962,8 @@ func genHist13(r *rng) *Hist13 {
 		rounds := 3 + r.intn(6)
 		if r.chance(0.75) {
 			// many dead compilations under one typing, a collection, many attempts under another
-			ea := genericEnvs[r.intn(4)]
-			eb := genericEnvs[(indexOf(genericEnvs, ea)+2)%4] // the other typing class
+			ea := genericEnvs[r.intn(len(genericEnvs))]
+			eb := genericEnvs[(indexOf(genericEnvs, ea)+2+2*r.intn(2))%len(genericEnvs)] // the other typing class
 			q1, q2 := p, p
 			q1.Env, q2.Env = ea, eb
 			h.Ops = append(h.Ops, H13Op{K: "bulk", Eng: e, Prog: &q1, N: 30 + r.intn(90)})
@@ -846,7 +980,7 @@ func genHist13(r *rng) *Hist13 {
 		}
 		for j := 0; j < rounds; j++ {
 			q := p
-			q.Env = genericEnvs[r.intn(4)]
+			q.Env = genericEnvs[r.intn(len(genericEnvs))]
 			h.Ops = append(h.Ops, H13Op{K: "compile", Eng: e, Prog: &q, Carrier: cc, GCBefore: r.chance(0.7)})
 			h.Ops = append(h.Ops, H13Op{K: "invoke", C: len(h.Ops) - 1, Env: q.Env, Carrier: carriers[r.intn(4)]})
 		}
@@ -916,6 +1050,8 @@ func shapeClass(name string) string {
 		return "std2-shape"
 	case "alt", "altstruct":
 		return "alt-shape"
+	case "alt2", "alt2struct":
+		return "alt2-shape"
 	}
 	return name
 }
@@ -1059,6 +1195,7 @@ func (c13) Batch(seed uint64, wid, batch, count int, deadline time.Time, emit fu
 		c["fault_reentrant_invocations"] += int64(res.Reentries)
 		c["fault_raw_env_edited_in_place"] += int64(res.RawEdits)
 		c["fault_raw_type_env_retyped_in_place"] += int64(res.RawRetypes)
+		c["compose_law_checked"] += int64(res.Composed)
 		c["sim_time_covered_s"] += abs64(res.Sim.ClockEnd - h.Sim.ClockBase)
 		for _, op := range h.Ops {
 			if op.StdoutFail {
